@@ -585,7 +585,9 @@ def clock_session(seed):
     rng = random.Random(seed)
     s = Session(rng)
     s.op("reset")
-    start = rng.choice([0, 1, 1000, 119999, 120000, 120001, 3600000, 36000000]) * 1000000
+    # process clocks from a fresh start to months of uptime: the millisecond clock is 64 bits wide, 2^31 ms are 24.9 days and 2^32 ms 49.7 days
+    start = rng.choice([0, 1, 1000, 119999, 120000, 120001, 3600000, 36000000, 2147482647, 2147483647, 2147483648, 2147603648, 2592000000, 4294966296,
+                        4294967296, 4295087296, 8640000000]) * 1000000
     if start:
         s.op("tick %d" % start)
     client = rng.random() < 0.5
